@@ -97,7 +97,9 @@ fn check_first(h: &Hist, ent: &EntitySpec, r1: &RespHead, with_if_range: bool) -
         Some(t) => ensure!(et.len() == 1 && et[0] == &t.0[..], format!("etag-changed:{st}"), "ETag served {:?}, entity has {:?}; {}", et.iter().map(|v| crate::util::show_bytes(v)).collect::<Vec<_>>(), t, what()),
         None => ensure!(et.is_empty(), format!("etag-invented:{st}"), "entity has no ETag but {:?} was served; {}", et.iter().map(|v| crate::util::show_bytes(v)).collect::<Vec<_>>(), what()),
     }
-    if h.mtime != Mtime::None {
+    // Times before the epoch are outside the statement's modification times (its quantifier starts at
+    // the epoch; this stack's HTTP-dates cannot carry them): only the other invariants apply.
+    if !matches!(h.mtime, Mtime::None | Mtime::Before(..)) {
         let date = r1.one("date").ok().flatten().and_then(parse_secs);
         let lm = r1.one("last-modified").ok().flatten().and_then(parse_secs);
         let (Some(date), Some(lm)) = (date, lm) else {
